@@ -63,4 +63,7 @@ def cells(tier):
         out.append(rcell(PID, N, k, T=T))
     out.append(icell(PID, 'roDelete', N=2, T=T))
     out.append(icell(PID, 'roReadyToAir', N=2, T=T))
+    for tw in ('same', 'blank', 'free'):
+        out.append(icell(PID, 'roDelete', N=2, T=T, twice=tw))
+    out.append(icell(PID, 'roDelete', N=1, T=T, twice='free', free_roid=True))
     return out
